@@ -1,7 +1,365 @@
 import MidnightZK.Model.Common
 import MidnightZK.Model.ModArith
 import MidnightZK.Model.C10.Field
-/-! Extension-field towers (stub, filled in below). -/
+import MidnightZK.Gen.C10Constants
+/-!
+Extension-field towers: the formulas of `ff_ext/quadratic.rs`, `ff_ext/cubic.rs`,
+`bn256/fq2.rs`, `bn256/fq6.rs`, `bls12_381/fp2.rs`, `bls12_381/fp6.rs`, written once over an
+arbitrary carrier with `+ - * -x` (so that the theorems can quantify over every commutative ring
+and the driver can run them over `Z/p`). Import-free.
+-/
 namespace MidnightZK.C10
-def answerTower (_t _op : String) (_args : List String) : String := "bad-op"
+
+/-- `c0 + c1·X` (`QuadExtField`, `Fp2`, `Fp12`). -/
+structure Quad (F : Type) where
+  c0 : F
+  c1 : F
+  deriving DecidableEq, Repr
+
+/-- `c0 + c1·X + c2·X²` (`CubicExtField`, `Fp6`). -/
+structure Cubic (F : Type) where
+  c0 : F
+  c1 : F
+  c2 : F
+  deriving DecidableEq, Repr
+
+section Formulas
+variable {F : Type} [Add F] [Sub F] [Mul F] [Neg F]
+
+instance : Add (Quad F) := ⟨fun a b => ⟨a.c0 + b.c0, a.c1 + b.c1⟩⟩
+instance : Sub (Quad F) := ⟨fun a b => ⟨a.c0 - b.c0, a.c1 - b.c1⟩⟩
+instance : Neg (Quad F) := ⟨fun a => ⟨-a.c0, -a.c1⟩⟩
+instance : Add (Cubic F) := ⟨fun a b => ⟨a.c0 + b.c0, a.c1 + b.c1, a.c2 + b.c2⟩⟩
+instance : Sub (Cubic F) := ⟨fun a b => ⟨a.c0 - b.c0, a.c1 - b.c1, a.c2 - b.c2⟩⟩
+instance : Neg (Cubic F) := ⟨fun a => ⟨-a.c0, -a.c1, -a.c2⟩⟩
+
+/-- `ff_ext/quadratic.rs: QuadExtFieldArith::mul_assign` (Karatsuba; `nr = mul_by_nonresidue`). -/
+def quadMul (nr : F → F) (a b : Quad F) : Quad F :=
+  let v0 := a.c0 * b.c0
+  let v1 := a.c1 * b.c1
+  ⟨v0 + nr v1, (a.c0 + a.c1) * (b.c0 + b.c1) - (v0 + v1)⟩
+
+/-- `QuadExtFieldArith::square_assign` (default). -/
+def quadSquare (nr : F → F) (a : Quad F) : Quad F :=
+  let ab := a.c0 * a.c1
+  let c0c1 := a.c0 + a.c1
+  let c0 := (nr a.c1 + a.c0) * c0c1 - ab
+  ⟨c0 - nr ab, ab + ab⟩
+
+/-- `bn256/fq2.rs: square_assign` (override, `u² = -1`). -/
+def fq2Square (a : Quad F) : Quad F :=
+  let s := a.c0 + a.c1
+  let d := a.c0 - a.c1
+  let c := a.c0 + a.c0
+  ⟨s * d, c * a.c1⟩
+
+/-- `QuadExtField::norm`: `c0² - nr(c1²)`. -/
+def quadNorm (nr : F → F) (a : Quad F) : F := a.c0 * a.c0 - nr (a.c1 * a.c1)
+
+/-- `Field::invert` of `QuadExtField`: with `t = norm⁻¹`, `(c0·t, c1·(-t))`. -/
+def quadInvWith (t : F) (a : Quad F) : Quad F := ⟨a.c0 * t, a.c1 * -t⟩
+
+/-- `bls12_381/fp2.rs: fn mul_by_nonresidue` (times `1 + u`). -/
+def blsFp2MulNr (a : Quad F) : Quad F := ⟨a.c0 - a.c1, a.c1 + a.c0⟩
+
+/-- `bn256/fq2.rs: fn mul_by_nonresidue` (times `9 + u`): `t = 8·a` by three doublings. -/
+def bnFq2MulNr (a : Quad F) : Quad F :=
+  let d1 : Quad F := a + a
+  let d2 := d1 + d1
+  let t := d2 + d2
+  ⟨t.c0 + a.c0 - a.c1, t.c1 + a.c0 + a.c1⟩
+
+/-- `ff_ext/cubic.rs: CubicExtFieldArith::mul_assign`. -/
+def cubicMul (nr : F → F) (a b : Cubic F) : Cubic F :=
+  let aa := a.c0 * b.c0
+  let bb := a.c1 * b.c1
+  let cc := a.c2 * b.c2
+  let t1 := (b.c1 + b.c2) * (a.c1 + a.c2) - (cc + bb)
+  let t1 := aa + nr t1
+  let t3 := (b.c0 + b.c2) * (a.c0 + a.c2) - (aa - bb + cc)
+  let t2 := (b.c0 + b.c1) * (a.c0 + a.c1) - (aa + bb)
+  let t2 := t2 + nr cc
+  ⟨t1, t2, t3⟩
+
+/-- `CubicExtFieldArith::square_assign`. -/
+def cubicSquare (nr : F → F) (a : Cubic F) : Cubic F :=
+  let s0 := a.c0 * a.c0
+  let ab := a.c0 * a.c1
+  let s1 := ab + ab
+  let m := a.c0 - a.c1 + a.c2
+  let s2 := m * m
+  let bc := a.c1 * a.c2
+  let s3 := bc + bc
+  let s4 := a.c2 * a.c2
+  ⟨nr s3 + s0, nr s4 + s1, s1 + s2 + s3 - s0 - s4⟩
+
+/-- The cofactors `(c0, c1, c2)` and the norm-like value `t` of `Field::invert` of
+`CubicExtField` (`ff_ext/cubic.rs`). -/
+def cubicInvParts (nr : F → F) (a : Cubic F) : Cubic F × F :=
+  let c0 := nr a.c2 * -a.c1 + a.c0 * a.c0
+  let c1 := nr (a.c2 * a.c2) - a.c0 * a.c1
+  let c2 := a.c1 * a.c1 - a.c0 * a.c2
+  let t := a.c2 * c1 + a.c1 * c2
+  let t := nr t + a.c0 * c0
+  (⟨c0, c1, c2⟩, t)
+
+/-- `… t.invert().map(|t| (t·c0, t·c1, t·c2))`. -/
+def cubicInvWith (nr : F → F) (tinv : F) (a : Cubic F) : Cubic F :=
+  let c := (cubicInvParts nr a).1
+  ⟨tinv * c.c0, tinv * c.c1, tinv * c.c2⟩
+
+/-- `bn256/fq6.rs: fn mul_by_nonresidue`, `bls12_381/fp6.rs: fn mul_by_nonresidue` (times `v`). -/
+def cubicMulNr (nr : F → F) (a : Cubic F) : Cubic F := ⟨nr a.c2, a.c0, a.c1⟩
+
+/-- `bls12_381/fp6.rs: MulAssign`. -/
+def blsFp6Mul (nr : F → F) (a b : Cubic F) : Cubic F :=
+  let aa := a.c0 * b.c0
+  let bb := a.c1 * b.c1
+  let cc := a.c2 * b.c2
+  let t1 := nr ((b.c1 + b.c2) * (a.c1 + a.c2) - bb - cc) + aa
+  let t3 := (b.c0 + b.c2) * (a.c0 + a.c2) - aa + bb - cc
+  let t2 := (b.c0 + b.c1) * (a.c0 + a.c1) - aa - bb + nr cc
+  ⟨t1, t2, t3⟩
+
+/-- `bls12_381/fp6.rs: fn square`. -/
+def blsFp6Square (nr : F → F) (a : Cubic F) : Cubic F :=
+  let s0 := a.c0 * a.c0
+  let ab := a.c0 * a.c1
+  let s1 := ab + ab
+  let m := a.c0 - a.c1 + a.c2
+  let s2 := m * m
+  let bc := a.c1 * a.c2
+  let s3 := bc + bc
+  let s4 := a.c2 * a.c2
+  ⟨nr s3 + s0, nr s4 + s1, s1 + s2 + s3 - s0 - s4⟩
+
+/-- `bls12_381/fp6.rs: fn invert`: cofactors and `t`. -/
+def blsFp6InvParts (nr : F → F) (a : Cubic F) : Cubic F × F :=
+  let c0 := -(nr a.c2 * a.c1) + a.c0 * a.c0
+  let c1 := nr (a.c2 * a.c2) - a.c0 * a.c1
+  let c2 := a.c1 * a.c1 - a.c0 * a.c2
+  let t := nr (a.c2 * c1 + a.c1 * c2) + a.c0 * c0
+  (⟨c0, c1, c2⟩, t)
+
+/-- `ff_ext/cubic.rs: CubicSparseMul::mul_by_1`. -/
+def mulBy1 (nr : F → F) (a : Cubic F) (c1 : F) : Cubic F :=
+  let bb := a.c1 * c1
+  let t1 := nr ((a.c1 + a.c2) * c1 - bb)
+  let t2 := (a.c0 + a.c1) * c1 - bb
+  ⟨t1, t2, bb⟩
+
+/-- `CubicSparseMul::mul_by_01`. -/
+def mulBy01 (nr : F → F) (a : Cubic F) (c0 c1 : F) : Cubic F :=
+  let aa := a.c0 * c0
+  let bb := a.c1 * c1
+  let t1 := aa + nr (c1 * (a.c1 + a.c2) - bb)
+  let t3 := c0 * (a.c0 + a.c2) - aa + bb
+  let t2 := (c0 + c1) * (a.c0 + a.c1) - aa - bb
+  ⟨t1, t2, t3⟩
+
+/-- `ff_ext/quadratic.rs: QuadSparseMul::mul_by_014`. -/
+def mulBy014 (nr : F → F) (a : Quad (Cubic F)) (c0 c1 c4 : F) : Quad (Cubic F) :=
+  let aa := mulBy01 nr a.c0 c0 c1
+  let bb := mulBy1 nr a.c1 c4
+  let t0 := a.c1 + a.c0
+  let t1 := c1 + c4
+  ⟨cubicMulNr nr bb + aa, mulBy01 nr t0 c0 t1 - (aa + bb)⟩
+
+/-- `QuadSparseMul::mul_by_034`. -/
+def mulBy034 (nr : F → F) (a : Quad (Cubic F)) (c0 c3 c4 : F) : Quad (Cubic F) :=
+  let t0 : Cubic F := ⟨a.c0.c0 * c0, a.c0.c1 * c0, a.c0.c2 * c0⟩
+  let t1 := mulBy01 nr a.c1 c3 c4
+  let t2 := a.c0 + a.c1
+  let t3 := c0 + c3
+  ⟨t0 + cubicMulNr nr t1, mulBy01 nr t2 t3 c4 - t0 - t1⟩
+
+/-! ### Reference products in the quotient rings -/
+
+/-- Product in `F[X]/(X² - β)`. -/
+def quadMulSpec (β : F) (a b : Quad F) : Quad F :=
+  ⟨a.c0 * b.c0 + β * (a.c1 * b.c1), a.c0 * b.c1 + a.c1 * b.c0⟩
+
+/-- Product in `F[X]/(X³ - ξ)`. -/
+def cubicMulSpec (ξ : F) (a b : Cubic F) : Cubic F :=
+  ⟨a.c0 * b.c0 + ξ * (a.c1 * b.c2 + a.c2 * b.c1),
+   a.c0 * b.c1 + a.c1 * b.c0 + ξ * (a.c2 * b.c2),
+   a.c0 * b.c2 + a.c1 * b.c1 + a.c2 * b.c0⟩
+
+end Formulas
+
+/-! ### Executable instance: `Z/p` -/
+
+/-- Integers modulo `p` (value kept reduced). -/
+structure ZP (p : Nat) where
+  v : Nat
+  deriving DecidableEq, Repr
+
+instance (p : Nat) : Add (ZP p) := ⟨fun a b => ⟨(a.v + b.v) % p⟩⟩
+instance (p : Nat) : Sub (ZP p) := ⟨fun a b => ⟨(a.v + (p - b.v % p)) % p⟩⟩
+instance (p : Nat) : Mul (ZP p) := ⟨fun a b => ⟨a.v * b.v % p⟩⟩
+instance (p : Nat) : Neg (ZP p) := ⟨fun a => ⟨(p - a.v % p) % p⟩⟩
+
+abbrev E2 (p : Nat) := Quad (ZP p)
+abbrev E6 (p : Nat) := Cubic (E2 p)
+abbrev E12 (p : Nat) := Quad (E6 p)
+
+/-- A tower: prime `p`, `Fp2 = Fp[u]/(u²+1)`, `Fp6 = Fp2[v]/(v³-ξ)`, `Fp12 = Fp6[w]/(w²-v)`. -/
+structure TowerInfo where
+  name : String
+  p : Nat
+  /-- `ξ = xi0 + u` -/
+  xi0 : Nat
+  /-- BLS12-381 formulas (`bls12_381/fp6.rs`) vs the generic `ff_ext` ones (BN254) -/
+  bls : Bool
+
+def towers : List TowerInfo :=
+  [⟨"Bls", limbsVal Gen.BlsFp.MODULUS, 1, true⟩, ⟨"Bn256", Gen.Bn256Fq.MODULUS, 9, false⟩]
+
+variable (T : TowerInfo)
+
+def nr1 (a : ZP T.p) : ZP T.p := -a
+def e2Mul (a b : E2 T.p) : E2 T.p := quadMul (nr1 T) a b
+def nr2 (a : E2 T.p) : E2 T.p := if T.bls then blsFp2MulNr a else bnFq2MulNr a
+def e2Square (a : E2 T.p) : E2 T.p := if T.bls then e2Mul T a a else fq2Square a
+def zpInv (a : ZP T.p) : ZP T.p := ⟨invMod a.v T.p⟩
+def e2Norm (a : E2 T.p) : ZP T.p := if T.bls then a.c0 * a.c0 + a.c1 * a.c1 else quadNorm (nr1 T) a
+def e2IsZero (a : E2 T.p) : Bool := a.c0.v = 0 ∧ a.c1.v = 0
+def e2Inv (a : E2 T.p) : Option (E2 T.p) :=
+  if e2IsZero T a then none else some (quadInvWith (zpInv T (e2Norm T a)) a)
+instance : Mul (E2 T.p) := ⟨e2Mul T⟩
+def e6Mul (a b : E6 T.p) : E6 T.p := if T.bls then blsFp6Mul (nr2 T) a b else cubicMul (nr2 T) a b
+def e6Square (a : E6 T.p) : E6 T.p := if T.bls then blsFp6Square (nr2 T) a else cubicSquare (nr2 T) a
+def e6IsZero (a : E6 T.p) : Bool := e2IsZero T a.c0 ∧ e2IsZero T a.c1 ∧ e2IsZero T a.c2
+def e6Inv (a : E6 T.p) : Option (E6 T.p) :=
+  let parts := if T.bls then blsFp6InvParts (nr2 T) a else cubicInvParts (nr2 T) a
+  match e2Inv T parts.2 with
+  | none => none
+  | some ti => some ⟨ti * parts.1.c0, ti * parts.1.c1, ti * parts.1.c2⟩
+def nr6 (a : E6 T.p) : E6 T.p := cubicMulNr (nr2 T) a
+instance : Mul (E6 T.p) := ⟨e6Mul T⟩
+def e12Mul (a b : E12 T.p) : E12 T.p := quadMul (nr6 T) a b
+def e12Square (a : E12 T.p) : E12 T.p := quadSquare (nr6 T) a
+def e12IsZero (a : E12 T.p) : Bool := e6IsZero T a.c0 ∧ e6IsZero T a.c1
+def e12Inv (a : E12 T.p) : Option (E12 T.p) :=
+  match e6Inv T (quadNorm (nr6 T) a) with
+  | none => none
+  | some t => some (quadInvWith t a)
+
+def e2One : E2 T.p := ⟨⟨1 % T.p⟩, ⟨0⟩⟩
+def e6One : E6 T.p := ⟨e2One T, ⟨⟨0⟩, ⟨0⟩⟩, ⟨⟨0⟩, ⟨0⟩⟩⟩
+def e12One : E12 T.p := ⟨e6One T, ⟨⟨⟨0⟩, ⟨0⟩⟩, ⟨⟨0⟩, ⟨0⟩⟩, ⟨⟨0⟩, ⟨0⟩⟩⟩⟩
+
+/-- Square-and-multiply with an explicit fuel (bits of the exponent). -/
+def powFuel {α : Type} (mul : α → α → α) : Nat → α → Nat → α → α
+  | 0, _, _, acc => acc
+  | f + 1, b, e, acc =>
+    if e = 0 then acc else powFuel mul f (mul b b) (e / 2) (if e % 2 = 1 then mul acc b else acc)
+
+def e2Pow (a : E2 T.p) (e : Nat) : E2 T.p := powFuel (e2Mul T) (e.log2 + 1) a e (e2One T)
+def e6Pow (a : E6 T.p) (e : Nat) : E6 T.p := powFuel (e6Mul T) (e.log2 + 1) a e (e6One T)
+def e12Pow (a : E12 T.p) (e : Nat) : E12 T.p := powFuel (e12Mul T) (e.log2 + 1) a e (e12One T)
+
+/-! ### Line protocol -/
+
+def e2OfList : List Nat → Option (E2 T.p)
+  | [a, b] => some ⟨⟨a % T.p⟩, ⟨b % T.p⟩⟩
+  | _ => none
+def e6OfList : List Nat → Option (E6 T.p)
+  | [a, b, c, d, e, f] => some ⟨⟨⟨a % T.p⟩, ⟨b % T.p⟩⟩, ⟨⟨c % T.p⟩, ⟨d % T.p⟩⟩, ⟨⟨e % T.p⟩, ⟨f % T.p⟩⟩⟩
+  | _ => none
+def e12OfList (l : List Nat) : Option (E12 T.p) :=
+  match e6OfList T (l.take 6), e6OfList T (l.drop 6) with
+  | some a, some b => if l.length = 12 then some ⟨a, b⟩ else none
+  | _, _ => none
+def e2ToList (a : E2 T.p) : List Nat := [a.c0.v, a.c1.v]
+def e6ToList (a : E6 T.p) : List Nat := e2ToList T a.c0 ++ e2ToList T a.c1 ++ e2ToList T a.c2
+def e12ToList (a : E12 T.p) : List Nat := e6ToList T a.c0 ++ e6ToList T a.c1
+
+def fmtE (l : List Nat) : String := fmtHexList l
+def fmtOptE : Option (List Nat) → String
+  | some l => fmtHexList l
+  | none => "none"
+
+def parseCoeffs (s : String) : Option (List Nat) := (s.splitOn ",").mapM parseNat?
+
+def answerE2 (op : String) (args : List (List Nat)) (extra : List Nat) : String :=
+  match op, args.mapM (e2OfList T), extra with
+  | "add", some [a, b], [] => fmtE (e2ToList T (a + b))
+  | "sub", some [a, b], [] => fmtE (e2ToList T (a - b))
+  | "mul", some [a, b], [] => fmtE (e2ToList T (e2Mul T a b))
+  | "neg", some [a], [] => fmtE (e2ToList T (-a))
+  | "square", some [a], [] => fmtE (e2ToList T (e2Square T a))
+  | "double", some [a], [] => fmtE (e2ToList T (a + a))
+  | "inv", some [a], [] => fmtOptE ((e2Inv T a).map (e2ToList T))
+  | "mul_nr", some [a], [] => fmtE (e2ToList T (nr2 T a))
+  | "norm", some [a], [] => toHex (e2Norm T a).v
+  | "is_zero", some [a], [] => fmtBool (e2IsZero T a)
+  | "frobenius", some [a], [k] => fmtE (e2ToList T (e2Pow T a (T.p ^ k)))
+  | "is_square", some [a], [] =>
+    fmtBool (e2IsZero T a || legendre T.p (e2Norm T a).v = 1)
+  | "legendre", some [a], [] => toString (legendre T.p (e2Norm T a).v)
+  | "pow", some [a], [e] => fmtE (e2ToList T (e2Pow T a e))
+  | _, _, _ => "bad-op"
+
+def answerE6 (op : String) (args : List (List Nat)) (extra : List Nat) : String :=
+  match op, args.mapM (e6OfList T), extra with
+  | "add", some [a, b], [] => fmtE (e6ToList T (a + b))
+  | "sub", some [a, b], [] => fmtE (e6ToList T (a - b))
+  | "mul", some [a, b], [] => fmtE (e6ToList T (e6Mul T a b))
+  | "neg", some [a], [] => fmtE (e6ToList T (-a))
+  | "square", some [a], [] => fmtE (e6ToList T (e6Square T a))
+  | "double", some [a], [] => fmtE (e6ToList T (a + a))
+  | "inv", some [a], [] => fmtOptE ((e6Inv T a).map (e6ToList T))
+  | "mul_nr", some [a], [] => fmtE (e6ToList T (nr6 T a))
+  | "is_zero", some [a], [] => fmtBool (e6IsZero T a)
+  | "frobenius", some [a], [k] => fmtE (e6ToList T (e6Pow T a (T.p ^ k)))
+  | "mul_by_1", some [a], [c10, c11] =>
+    fmtE (e6ToList T (mulBy1 (nr2 T) a ⟨⟨c10 % T.p⟩, ⟨c11 % T.p⟩⟩))
+  | "mul_by_01", some [a], [c00, c01, c10, c11] =>
+    fmtE (e6ToList T (mulBy01 (nr2 T) a ⟨⟨c00 % T.p⟩, ⟨c01 % T.p⟩⟩ ⟨⟨c10 % T.p⟩, ⟨c11 % T.p⟩⟩))
+  | _, _, _ => "bad-op"
+
+def answerE12 (op : String) (args : List (List Nat)) (extra : List Nat) : String :=
+  match op, args.mapM (e12OfList T), extra with
+  | "add", some [a, b], [] => fmtE (e12ToList T (a + b))
+  | "sub", some [a, b], [] => fmtE (e12ToList T (a - b))
+  | "mul", some [a, b], [] => fmtE (e12ToList T (e12Mul T a b))
+  | "neg", some [a], [] => fmtE (e12ToList T (-a))
+  | "square", some [a], [] => fmtE (e12ToList T (e12Square T a))
+  | "double", some [a], [] => fmtE (e12ToList T (a + a))
+  | "inv", some [a], [] => fmtOptE ((e12Inv T a).map (e12ToList T))
+  | "is_zero", some [a], [] => fmtBool (e12IsZero T a)
+  | "conjugate", some [a], [] => fmtE (e12ToList T ⟨a.c0, -a.c1⟩)
+  | "frobenius", some [a], [k] => fmtE (e12ToList T (e12Pow T a (T.p ^ k)))
+  | "mul_by_014", some [a], [x0, x1, y0, y1, z0, z1] =>
+    fmtE (e12ToList T (mulBy014 (nr2 T) a ⟨⟨x0 % T.p⟩, ⟨x1 % T.p⟩⟩ ⟨⟨y0 % T.p⟩, ⟨y1 % T.p⟩⟩ ⟨⟨z0 % T.p⟩, ⟨z1 % T.p⟩⟩))
+  | "mul_by_034", some [a], [x0, x1, y0, y1, z0, z1] =>
+    fmtE (e12ToList T (mulBy034 (nr2 T) a ⟨⟨x0 % T.p⟩, ⟨x1 % T.p⟩⟩ ⟨⟨y0 % T.p⟩, ⟨y1 % T.p⟩⟩ ⟨⟨z0 % T.p⟩, ⟨z1 % T.p⟩⟩))
+  | _, _, _ => "bad-op"
+
+/-- `tw <Tower><deg> <op> <coeff-vectors…> [| scalars]`, e.g. `tw Bls2 mul a0,a1 b0,b1`,
+`tw Bn25612 frobenius c0,…,c11 | 3`. -/
+def answerTower (tname op : String) (args : List String) : String :=
+  let (vecs, extra) := match args.span (· ≠ "|") with
+    | (v, _ :: e) => (v, e)
+    | (v, []) => (v, [])
+  match vecs.mapM parseCoeffs, extra.mapM parseNat? with
+  | some vs, some ex =>
+    let go (T : TowerInfo) (deg : String) : String :=
+      match deg with
+      | "2" => answerE2 T op vs ex
+      | "6" => answerE6 T op vs ex
+      | "12" => answerE12 T op vs ex
+      | _ => "bad-op"
+    if tname.startsWith "Bls" then
+      match towers.find? (·.name = "Bls") with
+      | some T => go T (tname.drop 3).toString
+      | none => "bad-op"
+    else if tname.startsWith "Bn256" then
+      match towers.find? (·.name = "Bn256") with
+      | some T => go T (tname.drop 5).toString
+      | none => "bad-op"
+    else "bad-op"
+  | _, _ => "bad-op"
+
 end MidnightZK.C10
